@@ -30,6 +30,7 @@ type Op struct {
 	Bad     string `json:"bad,omitempty"` // empty | toomany | length
 	Dst     string `json:"dst,omitempty"` // squeeze: what the caller puts into dst - "" (nil entries) | carved | reuse
 	M       int    `json:"m,omitempty"`   // reset: batch size of the next history of this handle
+	Lanes   int    `json:"lanes,omitempty"` // squeeze: > 0: only the first 1 + (Lanes-1) mod m lanes are asked for
 }
 
 // Config is one run.
@@ -407,6 +408,9 @@ func Run(cfg *Config) proto.End {
 		b, _ := json.Marshal(cfg)
 		r.res.Config = b
 	}
+	if len(cfg.Ops) > 250 && cfg.Ops[0].Blocks >= 250 {
+		r.res.Probes["more_than_65535_transforms_on_one_instance"] = 1
+	}
 	r.res.Nontriv = changes >= 2
 	r.res.Tags["handles"] = fmt.Sprint(len(inboxes))
 	r.res.Tags["first_batch_size"] = fmt.Sprint(m)
@@ -508,16 +512,24 @@ func (hd *handle) step(msg opMsg) (clone *handle) {
 		// Squeeze documents nothing about the contents of dst on entry and overwrites every entry, so a caller may
 		// pass anything: nil entries, pieces carved from one flat buffer (disjoint lengths, capacities running into
 		// the next lane's piece), or the slices a previous call returned
-		dst := make([]trinary.Trits, hd.m)
+		// a caller interested in the first k lanes only passes k slices; the other lanes go through the same
+		// transforms all the same, and a later full Squeeze must find them where their own sponges are
+		k := hd.m
+		if op.Lanes > 0 {
+			if k = 1 + (op.Lanes-1)%hd.m; k < hd.m {
+				hd.probes["squeeze_of_fewer_lanes_than_absorbed"] = 1
+			}
+		}
+		dst := make([]trinary.Trits, k)
 		switch op.Dst {
 		case "carved":
-			flat := make(trinary.Trits, hd.m*ref.HashLen)
+			flat := make(trinary.Trits, k*ref.HashLen)
 			for j := range dst {
 				dst[j] = flat[j*ref.HashLen : (j+1)*ref.HashLen]
 			}
 			hd.probes["squeeze_into_carved_buffer"] = 1
 		case "reuse":
-			if len(hd.lastDst) == hd.m {
+			if len(hd.lastDst) == k {
 				dst = hd.lastDst
 				hd.probes["squeeze_into_previous_output"] = 1
 			}
@@ -527,11 +539,14 @@ func (hd *handle) step(msg opMsg) (clone *handle) {
 		}
 		hd.lastDst, hd.kept = dst, nil
 		if err := hd.real.Squeeze(dst, n); err != nil {
-			hd.violate("wrong-error", fmt.Sprintf("%s: valid Squeeze of %d lanes x %d trits returned %q", where(), hd.m, n, err))
+			hd.violate("wrong-error", fmt.Sprintf("%s: valid Squeeze of %d lanes x %d trits returned %q", where(), k, n, err))
 			return
 		}
 		for j := 0; j < hd.m; j++ {
 			want := hd.lanes[j].Squeeze(n)
+			if j >= k {
+				continue // not asked for; its sponge has advanced all the same
+			}
 			if len(dst[j]) != n {
 				hd.violate("model-divergence:squeeze", fmt.Sprintf("%s: lane %d has %d trits, want %d", where(), j, len(dst[j]), n))
 				return
@@ -695,6 +710,17 @@ func Gen(seed uint64, tier string) *Config {
 		n = 20 + r.IntN(30)
 		c.M = 1 + r.IntN(3)
 	}
+	if r.IntN(2500) == 0 {
+		// once in a long while: more transforms on one instance than a 16-bit counter holds (one lane, 260 absorbs of
+		// 250-odd blocks, then one block squeezed)
+		c.M = 1
+		c.Ops = nil
+		for i := 0; i < 260; i++ {
+			c.Ops = append(c.Ops, Op{Kind: "absorb", H: 0, Blocks: 250 + r.IntN(10), Pattern: "random", Seed: r.Uint64()})
+		}
+		c.Ops = append(c.Ops, Op{Kind: "squeeze", H: 0, Blocks: 1, Seed: r.Uint64()})
+		return c
+	}
 	patterns := []string{"random", "random", "random", "zero", "plus", "minus", "same", "onediff", "aliased", "overlap"}
 	sq := []bool{false} // the generator tracks which handles are squeezing, to respect the sponge discipline
 	for len(c.Ops) < n {
@@ -729,6 +755,9 @@ func Gen(seed uint64, tier string) *Config {
 				o.Dst = "carved"
 			case 1:
 				o.Dst = "reuse"
+			}
+			if r.IntN(6) == 0 {
+				o.Lanes = 1 + r.IntN(64)
 			}
 			if o.Blocks > 0 {
 				sq[h] = true
